@@ -276,6 +276,9 @@ type Exec struct {
 	arrSorts map[string]Sort
 	ifaceParams []string
 	frameSorts  map[string]Sort
+	curProto    *protoDecl
+	curProtoOrg *origin
+	curAtomicOp string
 	spawned  []string
 	frameLocs  map[string][]Term // modifies clause resolved at entry: array -> locations
 	frameWhole map[string]bool
